@@ -46,6 +46,69 @@ pub open spec fn runs_concat<'a>(runs: Seq<&[Word<'a>]>, k: int) -> Seq<Word<'a>
     decreases k
 { if k <= 0 { Seq::empty() } else { runs_concat(runs, k - 1) + runs[k - 1]@ } }
 
+pub open spec fn run_start(runs: Seq<&[Word<'_>]>, k: int) -> nat { total(runs_concat(runs, k)) }
+pub proof fn run_start_step(runs: Seq<&[Word<'_>]>, k: int)
+    requires 0 <= k < runs.len()
+    ensures run_start(runs, k + 1) == run_start(runs, k) + total(runs[k]@),
+            flat(runs_concat(runs, k + 1)) =~= flat(runs_concat(runs, k)) + flat(runs[k]@),
+{
+    assert(runs_concat(runs, k + 1) == runs_concat(runs, k) + runs[k]@);
+    total_concat(runs_concat(runs, k), runs[k]@);
+    flat_concat(runs_concat(runs, k), runs[k]@);
+}
+pub proof fn run_start_mono(runs: Seq<&[Word<'_>]>, k: int, n: int)
+    requires 0 <= k <= n <= runs.len()
+    ensures run_start(runs, k) <= run_start(runs, n)
+    decreases n - k
+{ if k < n { run_start_step(runs, n - 1); run_start_mono(runs, k, n - 1); } }
+
+/// index (in the concatenation) of the first word of run k
+pub open spec fn run_first(runs: Seq<&[Word<'_>]>, k: int) -> int { runs_concat(runs, k).len() as int }
+pub proof fn runs_concat_index(runs: Seq<&[Word<'_>]>, k: int, j: int)
+    requires 0 <= k < runs.len(), 0 <= j < runs[k]@.len()
+    ensures
+        run_first(runs, k) + j < runs_concat(runs, runs.len() as int).len(),
+        runs_concat(runs, runs.len() as int)[run_first(runs, k) + j] == runs[k]@[j],
+        k + 1 < runs.len() && runs[k + 1]@.len() > 0 ==> run_first(runs, k) + runs[k]@.len() < runs_concat(runs, runs.len() as int).len(),
+    decreases runs.len() - k
+{
+    // runs_concat(runs, k+1) = runs_concat(runs,k) + runs[k]; extend up to runs.len()
+    prefix_stable(runs, k + 1, runs.len() as int);
+    assert(runs_concat(runs, k + 1) == runs_concat(runs, k) + runs[k]@);
+    if k + 1 < runs.len() && runs[k + 1]@.len() > 0 {
+        prefix_stable(runs, k + 2, runs.len() as int);
+        assert(runs_concat(runs, k + 2) == runs_concat(runs, k + 1) + runs[k + 1]@);
+    }
+}
+/// runs_concat(runs, a) is a prefix of runs_concat(runs, b) for a <= b
+pub proof fn prefix_stable(runs: Seq<&[Word<'_>]>, a: int, b: int)
+    requires 0 <= a <= b <= runs.len()
+    ensures runs_concat(runs, a).len() <= runs_concat(runs, b).len(),
+        forall|i: int| 0 <= i < runs_concat(runs, a).len() ==> #[trigger] runs_concat(runs, b)[i] == runs_concat(runs, a)[i]
+    decreases b - a
+{
+    if a < b { prefix_stable(runs, a, b - 1); assert(runs_concat(runs, b) == runs_concat(runs, b - 1) + runs[b - 1]@); }
+}
+/// flat(first a runs) is a byte prefix of flat(first n runs)
+pub proof fn flat_prefix_bytes(runs: Seq<&[Word<'_>]>, a: int, n: int)
+    requires 0 <= a <= n <= runs.len()
+    ensures flat(runs_concat(runs, a)).len() <= flat(runs_concat(runs, n)).len(),
+        forall|i: int| 0 <= i < flat(runs_concat(runs, a)).len() ==> #[trigger] flat(runs_concat(runs, n))[i] == flat(runs_concat(runs, a))[i]
+    decreases n - a
+{
+    if a < n { flat_prefix_bytes(runs, a, n - 1); run_start_step(runs, n - 1); }
+}
+/// the last byte of a word list whose last word has non-empty, all-space whitespace is a space
+pub proof fn flat_last_is_space(ws: Seq<Word<'_>>)
+    requires ws.len() > 0, ws.last().whitespace.spec_bytes().len() >= 1,
+        forall|j: int| 0 <= j < ws.last().whitespace.spec_bytes().len() ==> ws.last().whitespace.spec_bytes()[j] == 32
+    ensures flat(ws).len() >= 1, flat(ws).last() == 32
+{
+    let w = ws.last();
+    assert(flat(ws) == flat(ws.drop_last()) + wbytes(w));
+    assert(wbytes(w).last() == w.whitespace.spec_bytes().last());
+}
+
 /// C11 (ASCII separator), as needed here: the words tile the line, whitespace is spaces only,
 /// and every word but the last is followed by at least one space
 pub open spec fn ascii_words_ok(ws: Seq<Word<'_>>, line: Seq<u8>) -> bool {
@@ -65,6 +128,7 @@ pub fn vx_wrap_first_fit_1<'a, 'b>(words: &'b [Word<'a>], width: usize) -> (r: V
         r@.len() >= 1,
         runs_concat(r@, r@.len() as int) == words@,
         words@.len() > 0 ==> forall|k: int| 0 <= k < r@.len() ==> (#[trigger] r@[k])@.len() > 0,
+        words@.len() == 0 ==> r@.len() == 1,
 { unimplemented!() }
 
 /// str::split('\n') pieces with their byte offsets in the text
@@ -133,16 +197,67 @@ pub fn fill_inplace(text: &mut String, width: usize)
     {
         let words = vx_ascii_find_words_collect(line);
         let wrapped_words = vx_wrap_first_fit_1(&words, width);
-        proof { admit(); }
+        let ghost runs = wrapped_words@;
+        let ghost lb = line.spec_bytes();
+        let ghost o = offset as int;
+        proof { flat_len(words@); str_len_bound(line); }
 
         let mut line_offset = offset;
         for i in 0..wrapped_words.len() - 1
-            invariant true
+            invariant
+                runs == wrapped_words@, runs.len() >= 1,
+                runs_concat(runs, runs.len() as int) == words@,
+                words@.len() > 0 ==> forall|k: int| 0 <= k < runs.len() ==> (#[trigger] runs[k])@.len() > 0,
+                words@.len() == 0 ==> runs.len() == 1,
+                ascii_words_ok(words@, lb),
+                flat(words@).len() == total(words@), total(words@) == lb.len(), lb.len() <= isize::MAX,
+                0 <= o, o + lb.len() <= tb.len(), tb.subrange(o, o + lb.len()) == lb, tb.len() <= isize::MAX,
+                offset == o,
+                line_offset == o + run_start(runs, i as int),
+                all_space_targets(indices@, tb),
         {
             let words = wrapped_words[i];
-            let line_len = { let mut vx_acc = 0usize; for word in words.iter() { vx_acc = vx_acc + (word.word.len() + word.whitespace.len()); } vx_acc };
+            proof {
+                assert(words == runs[i as int]);
+                run_start_step(runs, i as int);
+                run_start_mono(runs, i as int + 1, runs.len() as int);
+            }
+            let line_len = { let mut vx_acc = 0usize; for word in vx_fold: words.iter()
+                    invariant vx_fold.seq().len() == words@.len(), forall|t: int| 0 <= t < words@.len() ==> *(#[trigger] vx_fold.seq()[t]) == words@[t],
+                        vx_acc == total(words@.take(vx_fold.index@ as int)), total(words@) <= isize::MAX,
+                { proof { total_take_step(words@, vx_fold.index@ as int); total_take_mono(words@, vx_fold.index@ as int + 1); }
+                  vx_acc = vx_acc + (word.word.len() + word.whitespace.len()); }
+                proof { assert(words@.take(words@.len() as int) =~= words@); }
+                vx_acc };
             line_offset += line_len;
+            proof {
+                // the byte before the next run is the last byte of this run's last word: a space
+                let k = i as int;
+                let all = runs_concat(runs, runs.len() as int);
+                assert(runs[k]@.len() > 0 && runs[k + 1]@.len() > 0);
+                runs_concat_index(runs, k, runs[k]@.len() - 1);
+                let gi = run_first(runs, k) + runs[k]@.len() - 1;        // global index of this run's last word
+                assert(all[gi] == runs[k]@.last());
+                assert(gi < all.len() - 1);
+                assert(all[gi].whitespace.spec_bytes().len() >= 1);
+                let pre = runs_concat(runs, k + 1);
+                assert(pre == runs_concat(runs, k) + runs[k]@);
+                assert(pre.last() == runs[k]@.last());
+                flat_last_is_space(pre);
+                flat_prefix_bytes(runs, k + 1, runs.len() as int);
+                flat_len(pre);
+                let p = run_start(runs, k + 1) as int;      // bytes before the next run
+                assert(flat(all)[p - 1] == flat(pre)[p - 1]);
+                assert(lb[p - 1] == 32);
+                assert(tb[o + p - 1] == tb.subrange(o, o + lb.len())[p - 1]);
+            }
+            let ghost prev = indices@;
             indices.push(line_offset - 1);
+            proof {
+                assert forall|t: int| 0 <= t < indices@.len() implies (#[trigger] indices@[t]) < tb.len() && tb[indices@[t] as int] == 32 by {
+                    if t < prev.len() { assert(indices@[t] == prev[t]); }
+                }
+            }
         }
 
         offset += line.len() + 1;
